@@ -58,7 +58,9 @@ def defects():
     byp = {}
     for e in fixed:
         byp.setdefault(e["property"], []).append(e)
-    out.append("Repaired, by the property whose check found it:")
+    out.append("Repaired, by the property whose check found it (where props.json or a Lean comment speaks of a model "
+               "\"after fixes/<name>.diff\", that is the diff a sub-agent delivered; each was reviewed and committed to /repo "
+               "as one of the `fix:` commits listed here, and the models describe /repo's HEAD):")
     out.append("")
     for pid in sorted(byp):
         items = []
